@@ -106,6 +106,7 @@ structure Inv (s : State) : Prop where
   freshOk : ∀ h n, (s.pc (.fr h)).fresh = some n →
     (s.box n).alloc = true ∧ (s.box n).pub = false ∧ (∀ f, n ∉ s.glist f) ∧
     ((s.box n).taken = true → s.pc (.fr h) = .wFree n ∧ (s.box n).own = some (.fr h))
+  freshUniq : ∀ h h' n, (s.pc (.fr h)).fresh = some n → (s.pc (.fr h')).fresh = some n → h = h'
   freshVer : ∀ h f v n ver, (s.pc (.fr h) = .wCons f v n ver ∨ s.pc (.fr h) = .wLock f v n ver ∨ (∃ m, s.pc (.fr h) = .wLink f v n ver m))
     → (s.box n).ver = ver
   freshVerT : ∀ h n ver, s.pc (.fr h) = .wTake n ver → (s.box n).ver = ver
@@ -128,6 +129,8 @@ structure Inv (s : State) : Prop where
   listOk : ListOk s
   scanOk : ScanOk s
   prevOk : PrevOk s
+  placed : ∀ n, (s.box n).alloc = true → (s.box n).pub = true → (s.box n).taken = false →
+    n ∈ s.glist (s.node n).fut ∨ (∃ b, s.lock (s.node n).fut = some b ∧ n ∈ (s.pc b).pend)
   oScanOk : ∀ a f cur l0 seen, s.pc a = .oScan f cur l0 seen → s.hnext f = some cur ∧ l0 = seen ++ s.glist f
   oNoneOk : ∀ a f l0 seen, s.pc a = .oUnlock f none l0 seen → s.hnext f = none ∧ s.glist f = [] ∧ seen = l0
   aUnlockOk : ∀ a f hd took skip l0, s.pc a = .aUnlock f hd took skip l0 →
